@@ -80,6 +80,10 @@ def has_mode(m, mode):
     return mc6809.opcode_of(m, mode) is not None
 
 
+# quick tier: row classes that get every spelling also through an EQU symbol (values outside -32768..65535 included)
+EQU_ALL_SPELLINGS = ("ADCA", "ADDD", "ASL", "BCC", "ABX", "LEAS")
+
+
 class AsmForms:
     name = "asm_forms"
     props = ("C01", "C02", "C12", "C13", "C17")
@@ -102,8 +106,8 @@ class AsmForms:
                         sps = ["dec2"] if tier != "thorough" else ["dec2", "hex4", "neg1"]
                     for sp in sps:
                         for via in ((None, "equ") if (lit and f not in BAD_FORMS) else (None,)):
-                            if via == "equ" and tier != "thorough" and sp not in ("dec2", "hex4", "neg1", "hex2"):
-                                continue
+                            if via == "equ" and tier != "thorough" and sp not in ("dec2", "hex4", "neg1", "hex2") and m not in EQU_ALL_SPELLINGS:
+                                continue          # quick: the remaining spellings through an EQU on a few row classes only
                             if tier != "thorough" and r in ("Y", "U") and sp not in (None, "dec2"):
                                 continue
                             cid = "%s/%s/%s/%s%s" % (f, r or "-", sp or "-", m, "/equ" if via else "")
